@@ -32,6 +32,8 @@ struct Model {
     minted: i128,
     burned: i128,
     inbound: u32,
+    /// (token, recipient, amount, data?) of the last successful inbound delivery
+    last_in: Option<(u8, u8, i128, bool)>,
 }
 
 #[derive(Clone, Copy, Debug, PartialEq, Eq, Serialize, Deserialize)]
@@ -56,6 +58,8 @@ enum Act {
     Out { token: u8, sender: usize, amt: Amt, trusted_dest: bool, data: bool, gas: u8, auth: bool, gas_tok: u8 },
     /// recipient: 0 = U2, 1 = app with data
     In { token: u8, recipient: u8, amt: Amt },
+    /// the last successful inbound delivery is approved and delivered again, unchanged
+    ReplayLastInbound,
     Advance(u32),
 }
 
@@ -112,6 +116,7 @@ impl Scenario for C05 {
             minted: 0,
             burned: 0,
             inbound: 0,
+            last_in: None,
         };
         if c == 1 {
             let mut o = StepOut::default();
@@ -158,6 +163,9 @@ impl Scenario for C05 {
                     }
                 }
             }
+        }
+        if m.last_in.is_some() {
+            v.push(Act::ReplayLastInbound);
         }
         v.push(Act::RemoveTrusted);
         v.push(Act::SetTrusted);
@@ -268,6 +276,23 @@ impl Scenario for C05 {
                 let r = match_events(&call.events, &expected, &["interchain_transfer_sent", "gas_paid", "contract_called", "interchain_transfer_received"]);
                 out.expect(r.is_ok(), "outbound.announcement", || truncate(&r.unwrap_err(), 900));
             }
+            Act::ReplayLastInbound => {
+                out.kind = "inbound-replay";
+                let (token, recipient, x, _with_data) = m.last_in.unwrap();
+                let tid = if token == 0 { ctx.t1_id } else { ctx.t2_id };
+                let (rcpt, data): (&Address, Vec<u8>) = if recipient == 0 { (&iw.users[1], vec![]) } else { (&iw.app, b"app-data".to_vec()) };
+                let payload = abi_hub(&RHub::ReceiveFromHub {
+                    chain: X.as_bytes().to_vec(),
+                    msg: RMsg::Transfer { token_id: tid, source_address: b"remote-sender".to_vec(), destination_address: addr_xdr(&iw.sc(rcpt)), amount: x as u128, data },
+                });
+                let mid = format!("in-{}", m.inbound - 1);
+                let ap = iw.approve_delivery(HUB_CHAIN, &mid, HUB_ADDRESS, &iw.its, &payload);
+                assert!(ap.ok);
+                let call = iw.execute(&iw.its, HUB_CHAIN, &mid, HUB_ADDRESS, &payload);
+                out.accepted = call.ok;
+                out.expect(!call.ok, "inbound.replayed-delivery-accepted", || format!("delivery {} was credited a second time", mid));
+                out.expect(h0 == w.state_hash(), "inbound.replay-changed-state", || "re-approving and re-delivering an executed message changed the ledger".into());
+            }
             Act::In { token, recipient, amt } => {
                 out.kind = "inbound";
                 let (tid, registered, tix) = if *token == 0 { (ctx.t1_id, m.t1, 0usize) } else { (ctx.t2_id, m.t2, 1) };
@@ -305,6 +330,7 @@ impl Scenario for C05 {
                 }
                 if !want { return; }
                 if zero { m.inbound += 1; return; }
+                m.last_in = Some((*token, *recipient, x, !data.is_empty()));
                 m.inbound += 1;
                 if tix == 0 { m.bal[0][rix] += x; m.minted += x; } else { m.bal[1][3] -= x; m.bal[1][rix] += x; m.released += x; }
                 let mut must = vec![sstr(X), sbytes(&tid), sbytes(b"remote-sender"), w.sc_addr_val(rcpt), si128(x)];
@@ -366,7 +392,7 @@ fn main() {
         let mut o = Opts::new(tier, if thorough { 9 } else { 4 });
         o.min_depth = 3;
         o.wall_cap_s = if thorough { 600.0 } else { 100.0 };
-        o.rule = "two base states (nothing deployed; T1 deployed + T2 registered); all sequences over deploy, register canonical, set/remove trusted chain, outbound interchain_transfer (token T1 / T2 / unknown id; sender U1 / U2; amount -1, 0, 1, balance, balance+1; trusted / untrusted destination; with / without data; gas 1 / unaffordable / 0 / negative, paid in the gas token or in the transferred token itself or the other ITS token; authorised by the sender or by the other user) and approved inbound transfers (token T1 / T2; to a user or with data to an app; amount 1, custody, custody+1; bounded count). After every new state every balance of T1, T2 and the gas token for U1, U2, app, ITS, gas service, custody == locked - released >= 0 and supply(T1) == 20 + minted - burned are compared; every successful outbound call's three events and payload are compared with the independent ABI encoding and keccak".into();
+        o.rule = "two base states (nothing deployed; T1 deployed + T2 registered); all sequences over deploy, register canonical, set/remove trusted chain, outbound interchain_transfer (token T1 / T2 / unknown id; sender U1 / U2; amount -1, 0, 1, balance, balance+1; trusted / untrusted destination; with / without data; gas 1 / unaffordable / 0 / negative, paid in the gas token or in the transferred token itself or the other ITS token; authorised by the sender or by the other user) and approved inbound transfers (replays of the last executed one included; token T1 / T2; to a user or with data to an app; amount 1, custody, custody+1; bounded count). After every new state every balance of T1, T2 and the gas token for U1, U2, app, ITS, gas service, custody == locked - released >= 0 and supply(T1) == 20 + minted - burned are compared; every successful outbound call's three events and payload are compared with the independent ABI encoding and keccak".into();
         (C05 { thorough }, o)
     });
 }
